@@ -91,7 +91,8 @@ type fieldKey struct {
 	f int
 }
 
-// ownedObject: the allocation is only accessed field by field (loads and stores) and otherwise only returned: no other
+// ownedObject: the allocation is only accessed field by field (loads and stores), assigned as a whole from a composite
+// literal temporary, and otherwise only handed out by returning it (directly or through the result variable): no other
 // code can have stored into its fields while this activation runs.
 func ownedObject(a *ssa.Alloc) bool {
 	if a.Referrers() == nil {
@@ -100,16 +101,40 @@ func ownedObject(a *ssa.Alloc) bool {
 	for _, r := range *a.Referrers() {
 		switch r := r.(type) {
 		case *ssa.FieldAddr:
-			if r.Referrers() == nil {
+			if !fieldAddrLocalUse(r) {
 				return false
 			}
-			for _, rr := range *r.Referrers() {
-				switch rr := rr.(type) {
+		case *ssa.Store:
+			if r.Addr == a {
+				// whole-struct assignment: only from a composite literal temporary (checked per field by wholeStoreSources)
+				if _, ok := complitSource(r.Val); !ok {
+					return false
+				}
+				continue
+			}
+			// the pointer is put into a local variable that is only read back to be returned
+			d, ok := r.Addr.(*ssa.Alloc)
+			if !ok || d.Heap || d.Referrers() == nil {
+				return false
+			}
+			for _, dr := range *d.Referrers() {
+				switch dr := dr.(type) {
 				case *ssa.Store:
-					if rr.Addr != r {
+					if dr.Addr != d {
 						return false
 					}
-				case *ssa.UnOp, *ssa.DebugRef:
+				case *ssa.UnOp:
+					if dr.Referrers() == nil {
+						return false
+					}
+					for _, lr := range *dr.Referrers() {
+						switch lr.(type) {
+						case *ssa.Return, *ssa.DebugRef:
+						default:
+							return false
+						}
+					}
+				case *ssa.DebugRef:
 				default:
 					return false
 				}
@@ -120,6 +145,49 @@ func ownedObject(a *ssa.Alloc) bool {
 		}
 	}
 	return true
+}
+
+func fieldAddrLocalUse(r *ssa.FieldAddr) bool {
+	if r.Referrers() == nil {
+		return false
+	}
+	for _, rr := range *r.Referrers() {
+		switch rr := rr.(type) {
+		case *ssa.Store:
+			if rr.Addr != r {
+				return false
+			}
+		case *ssa.UnOp, *ssa.DebugRef:
+		default:
+			return false
+		}
+	}
+	return true
+}
+
+// complitSource: the value is the contents of a local composite-literal temporary that is only written field by field
+// and read once as a whole.
+func complitSource(v ssa.Value) (*ssa.Alloc, bool) {
+	u, ok := v.(*ssa.UnOp)
+	if !ok || u.Op != token.MUL {
+		return nil, false
+	}
+	c, ok := u.X.(*ssa.Alloc)
+	if !ok || c.Heap || c.Referrers() == nil {
+		return nil, false
+	}
+	for _, r := range *c.Referrers() {
+		switch r := r.(type) {
+		case *ssa.FieldAddr:
+			if !fieldAddrLocalUse(r) {
+				return nil, false
+			}
+		case *ssa.UnOp, *ssa.DebugRef:
+		default:
+			return nil, false
+		}
+	}
+	return c, true
 }
 
 // ownFreshSlices: a slice value refers to an array allocated by this activation when it is nil, a make, an append /
@@ -175,6 +243,20 @@ func ownFreshSlices(fn *ssa.Function, fr *Frame) func(ssa.Value) bool {
 					for _, sv := range fieldStores[fieldKey{a, fa.Field}] {
 						if !get(sv) {
 							return false
+						}
+					}
+					// whole-struct assignments from composite literal temporaries: the field's value there
+					for _, r := range *a.Referrers() {
+						if st, isSt := r.(*ssa.Store); isSt && st.Addr == a {
+							c, ok := complitSource(st.Val)
+							if !ok {
+								return false
+							}
+							for _, sv := range fieldStores[fieldKey{c, fa.Field}] {
+								if !get(sv) {
+									return false
+								}
+							}
 						}
 					}
 					return true
